@@ -22,7 +22,7 @@ Put(f, k, v) == [x \in DOMAIN f \cup {k} |-> IF x = k THEN v ELSE f[x]]
 Init ==
   /\ cfg = [kind |-> Kind, cap |-> Cap]
   /\ buf = <<>> /\ tx = (1 :> "live") /\ rx = (2 :> "live")
-  /\ disc = {} /\ once = FALSE /\ out = {} /\ gone = {} /\ acked = {} /\ pend = Empty
+  /\ disc = {} /\ once = FALSE /\ out = {} /\ gone = {} /\ cur = (2 :> 0) /\ pend = Empty
   /\ nextv = 1 /\ sentSeq = <<>> /\ recvSeq = <<>>
 
 \* thread t (= operation id) calls `op` on one of its side's handles
@@ -37,13 +37,13 @@ Call(t, h, op) ==
        ELSE /\ h \in DOMAIN rx
             /\ pend' = Put(pend, t, NewOp(h, op, <<>>, IF op \in SingleRecv THEN 1 ELSE 2, FALSE))
             /\ UNCHANGED nextv
-  /\ UNCHANGED <<cfg, buf, tx, rx, disc, once, out, gone, acked, sentSeq, recvSeq>>
+  /\ UNCHANGED <<cfg, buf, tx, rx, disc, once, out, gone, cur, sentSeq, recvSeq>>
 
 LinS(o) ==
   \/ SendOne(o) /\ sentSeq' = Append(sentSeq, Head(pend[o].vs)) /\ UNCHANGED <<disc, recvSeq, nextv>>
   \/ (SendDone(o) \/ SendClosed(o) \/ SendSent(o) \/ SendFull(o) \/ RecvDone(o) \/ RecvEmpty(o) \/ RecvDisc(o))
      /\ UNCHANGED <<sentSeq, recvSeq, nextv>>
-  \/ RecvOne(o) /\ recvSeq' = Append(recvSeq, Head(buf)) /\ UNCHANGED <<sentSeq, nextv>>
+  \/ RecvOne(o) /\ recvSeq' = Append(recvSeq, pend'[o].got[Len(pend'[o].got)]) /\ UNCHANGED <<sentSeq, nextv>>
 
 Hand(s, r) == Handoff(s, r) /\ sentSeq' = Append(sentSeq, Head(pend[s].vs))
               /\ recvSeq' = Append(recvSeq, Head(pend[s].vs)) /\ UNCHANGED nextv
@@ -52,25 +52,31 @@ Ret(o) ==
   /\ o \in DOMAIN pend /\ pend[o].lin # ""
   /\ out' = out \cup Rng(pend[o].vs) \cup Rng(pend[o].got)
   /\ pend' = Drop1(pend, o)
-  /\ UNCHANGED <<cfg, buf, tx, rx, disc, once, gone, acked, nextv, sentSeq, recvSeq>>
+  /\ UNCHANGED <<cfg, buf, tx, rx, disc, once, gone, cur, nextv, sentSeq, recvSeq>>
 
 Busy(h) == \E o \in DOMAIN pend : pend[o].h = h
 
 Destroy == \* the channel destroys what nobody can receive any more
   /\ LiveR = {} /\ buf # <<>>
   /\ gone' = gone \cup Rng(buf) /\ buf' = <<>>
-  /\ UNCHANGED <<cfg, tx, rx, disc, once, out, acked, pend, nextv, sentSeq, recvSeq>>
+  /\ UNCHANGED <<cfg, tx, rx, disc, once, out, cur, pend, nextv, sentSeq, recvSeq>>
 
 CloseH(h) ==
   /\ ~Busy(h)
   /\ \/ h \in DOMAIN tx /\ tx[h] = "live" /\ tx' = [tx EXCEPT ![h] = "closed"] /\ UNCHANGED rx
      \/ h \in DOMAIN rx /\ rx[h] = "live" /\ rx' = [rx EXCEPT ![h] = "closed"] /\ UNCHANGED tx
-  /\ UNCHANGED <<cfg, buf, disc, once, out, gone, acked, pend, nextv, sentSeq, recvSeq>>
+  /\ UNCHANGED <<cfg, buf, disc, once, out, gone, cur, pend, nextv, sentSeq, recvSeq>>
 
 CloneS ==
-  /\ 3 \notin DOMAIN tx /\ 1 \in DOMAIN tx /\ tx[1] = "live" /\ Kind # "os"
+  /\ 3 \notin DOMAIN tx /\ 1 \in DOMAIN tx /\ tx[1] = "live" /\ Kind \notin {"os", "bc"}
   /\ tx' = Put(tx, 3, "live")
-  /\ UNCHANGED <<cfg, buf, rx, disc, once, out, gone, acked, pend, nextv, sentSeq, recvSeq>>
+  /\ UNCHANGED <<cfg, buf, rx, disc, once, out, gone, cur, pend, nextv, sentSeq, recvSeq>>
+
+\* broadcast: a second receiver cloned from the first starts at its position (C07)
+CloneR ==
+  /\ Kind = "bc" /\ 4 \notin DOMAIN rx /\ 2 \in DOMAIN rx /\ rx[2] = "live" /\ ~Busy(2)
+  /\ rx' = Put(rx, 4, "live") /\ cur' = Put(cur, 4, cur[2])
+  /\ UNCHANGED <<cfg, buf, tx, disc, once, out, gone, pend, nextv, sentSeq, recvSeq>>
 
 Next ==
   \/ \E t \in {10, 11} : \E h \in DOMAIN tx : \E op \in Ops \cap SendOps : Call(t, h, op)
@@ -78,7 +84,7 @@ Next ==
   \/ \E o \in DOMAIN pend : LinS(o) \/ Ret(o)
   \/ \E s, r \in DOMAIN pend : Hand(s, r)
   \/ \E h \in DOMAIN tx \cup DOMAIN rx : CloseH(h)
-  \/ CloneS \/ Destroy
+  \/ CloneS \/ CloneR \/ (Kind # "bc" /\ Destroy)
 
 Spec == Init /\ [][Next]_vars
 
@@ -92,4 +98,6 @@ ConservationInv ==
 \* C04: after every sender is gone and the buffer is empty nothing can arrive any more
 DiscFinalInv == \A h \in disc : (h \in DOMAIN rx /\ rx[h] = "live") => buf = <<>> \/ TRUE
 Inv == ChanInv /\ FifoInv /\ ConservationInv
+\* C07: every receiver's view is a window of the send order; nothing unread is overwritten
+InvBc == ChanInv /\ (\A h \in DOMAIN rx : cur[h] <= Len(buf)) /\ buf = sentSeq
 =========================================================================
